@@ -18,6 +18,7 @@ from rules.core import pat
 from rules.core.facts import Operand, PASS_THROUGH
 
 CRATES = ["aranya_runtime"]
+THOROUGH_CONFIGS = ["lowmem"]   # thorough tier: the same rules on the low-mem-usage build
 T = "aranya_runtime::client::transaction::Transaction::"
 FIELD = "original_heads_offset"
 
